@@ -120,7 +120,11 @@ def w_generate(case):
     finally:
         shutil.rmtree(scratch, ignore_errors=True)
     # 3. the command itself, on a directory with pre-existing contents
-    root = tempfile.mkdtemp(prefix="fcpgen_o_")
+    # the output directory may live on another file system than the temporary directory (a RAM disk, a mounted build volume)
+    other = case.get("other_fs") and os.path.isdir("/dev/shm") and os.access("/dev/shm", os.W_OK) and \
+        os.stat("/dev/shm").st_dev != os.stat(tempfile.gettempdir()).st_dev
+    out["other_fs"] = bool(other)
+    root = tempfile.mkdtemp(prefix="fcpgen_o_", dir="/dev/shm" if other else None)
     try:
         base = snaproot = root
         if case.get("via_symlink"):
@@ -281,7 +285,7 @@ def run_c10(prop, tier):
                 poison = decls_poison
         else:
             g = rng.choice(["dbc", "can_c", "cpp", "nop", "dbc", "can_c"])
-        c = {"text": text, "generator": g, "pre": rng.choice(PRE), "poison": poison, "via_cli": rng.random() < 0.5, "via_symlink": rng.random() < 0.25}
+        c = {"text": text, "generator": g, "pre": rng.choice(PRE), "poison": poison, "via_cli": rng.random() < 0.5, "via_symlink": rng.random() < 0.25, "other_fs": rng.random() < 0.2}
         if prop == "C10" and rng.random() < 0.2:
             # a plug-in check rejecting with an arbitrary payload, in any category and position
             c.update({"text": 'version: "3"\n\n' + "\n".join(GOOD) +
